@@ -3,5 +3,5 @@ CONSTANTS
   P = 97
   Gen = 5
   N = 4
-INVARIANTS Complete SZBudget FloorExact FamilyShape Report
+INVARIANTS Complete FloorSound SZBudget CollisionIsValidProof FamilyShape Report
 CHECK_DEADLOCK FALSE
